@@ -10,10 +10,14 @@ package c17
 // frames < f may be delivered.
 
 import (
+	"bytes"
 	"encoding/binary"
+	"errors"
 	"fmt"
+	"io"
 	"math/rand"
 	"os"
+	"strings"
 	"sync"
 
 	"github.com/canopy-network/canopy/lib/crypto"
@@ -262,9 +266,9 @@ func tamperCase(run *core.Run, name string, spec tamperSpec) {
 	L.closeWrite()
 	L.setHold(false)
 	// drive the real reader until it reports an error
-	var got []byte
+	var got, after []byte // delivered before / after the first read error
 	var rerr error
-	reads := 0
+	reads, errsAfter := 0, 0
 	var wg sync.WaitGroup
 	wg.Add(1)
 	go func() {
@@ -279,10 +283,22 @@ func tamperCase(run *core.Run, name string, spec tamperSpec) {
 			sz := spec.ReadBuf[i%len(spec.ReadBuf)]
 			n, err := R.Read(buf[:sz])
 			reads++
-			got = append(got, buf[:n]...)
+			if rerr == nil {
+				got = append(got, buf[:n]...)
+			} else {
+				after = append(after, buf[:n]...)
+			}
 			if err != nil {
-				rerr = err
-				return
+				if rerr == nil {
+					rerr = err
+				}
+				// keep reading after the first error (a consumer that retries must still never be handed bytes that were
+				// not written at that stream position) until the wire is exhausted
+				errsAfter++
+				if errors.Is(err, io.EOF) || strings.Contains(err.Error(), "EOF") || strings.Contains(err.Error(), "closed") || errsAfter > 3*len(perFrame)+8 {
+					return
+				}
+				continue
 			}
 			if len(got) > total+4096 {
 				rerr = fmt.Errorf("reader delivered more than was ever written")
@@ -306,6 +322,10 @@ func tamperCase(run *core.Run, name string, spec tamperSpec) {
 		bad = "delivered-bytes-never-written"
 	case len(got) > allowed:
 		bad = "delivered-beyond-first-tampered-frame"
+	case len(after) > 0 && (len(got)+len(after) > len(want) || !bytes.Equal(after, want[len(got):len(got)+len(after)])):
+		// whatever is delivered after an error must still be the bytes written at that position (a duplicated frame is
+		// refused and the stream continues; a modified or dropped frame must not be skipped over)
+		bad = "stream-spliced-after-read-error"
 	case rerr != nil && len(rerr.Error()) >= 5 && rerr.Error()[:5] == "PANIC":
 		bad = "reader-panic"
 	}
